@@ -41,6 +41,7 @@ type sched struct {
 	step     int
 	trace    []string
 	self     int64
+	hint     *thr // the thread granted last
 }
 
 func curGID() int64 {
@@ -172,6 +173,19 @@ func safeCall(body func() string) (res string) {
 
 // settle waits for quiescence. false = watchdog expired.
 func (s *sched) settle() bool {
+	// cheap pre-wait: the thread that was just granted usually parks at its next gate or returns at once
+	if h := s.hint; h != nil {
+		for k := 0; k < 300; k++ {
+			s.mu.Lock()
+			settled := h.parked || h.done
+			s.mu.Unlock()
+			if settled {
+				break
+			}
+			runtime.Gosched()
+		}
+		s.hint = nil
+	}
 	deadline := time.Now().Add(5 * time.Second)
 	for iter := 0; ; iter++ {
 		st := goStates()
@@ -252,6 +266,7 @@ func (s *sched) grantTo(t *thr, tag string) {
 	}
 	t.last = s.step
 	t.parked = false
+	s.hint = t
 	s.mu.Unlock()
 	t.grant <- tag
 }
